@@ -174,7 +174,13 @@ pub fn gen_case(c: &mut Choices) -> Case {
             4 => {
                 if c.chance(1, 4) {
                     // `this` of a getter is the defaults object
-                    entries.push(format!("get {ks}() {{ return [typeof this, dflt1]; }}"));
+                    if c.bool() {
+                        entries.push(format!("get {ks}() {{ return [typeof this, dflt1]; }}"));
+                    } else {
+                        // ... also inside an arrow function, which has no `this` of its own
+                        entries.push(format!("get {ks}() {{ return (() => [typeof this, dflt1])(); }}"));
+                        label("this-or-super-inside-nested-arrow", &mut labels);
+                    }
                     expected.push(format!("{key_js}: [\"object\", dflt1]"));
                     label("getter-using-this", &mut labels);
                 } else {
@@ -186,8 +192,13 @@ pub fn gen_case(c: &mut Choices) -> Case {
             5 => {
                 if c.chance(1, 4) {
                     // `super` of an object-literal method is the object's prototype
-                    if c.bool() {
+                    let form = c.pick(3);
+                    if form == 0 {
                         entries.push(format!("{ks}() {{ return super.toString === undefined ? 1 : 4; }}"));
+                    } else if form == 1 {
+                        // ... inside an arrow function, which has no `super` of its own
+                        entries.push(format!("{ks}() {{ return (() => (super.toString === undefined ? 1 : 4))(); }}"));
+                        label("this-or-super-inside-nested-arrow", &mut labels);
                     } else {
                         // ... in the parameter list as well
                         entries.push(format!("{ks}(v = super.toString === undefined ? 1 : 4) {{ return v; }}"));
